@@ -73,11 +73,12 @@ META = {
     "design_ref": "DESIGN.md §6 C10",
 }
 
-HDR = "From Dawn Require Import Mvs.Edit Mvs.Run Mvs.Load Mvs.Locate Mvs.RunLoad Mvs.RunGate.\nOpen Scope N_scope.\n"
+HDR = "From Dawn Require Import Mvs.Edit Mvs.Run Mvs.Load Mvs.Locate Mvs.RunLoad Mvs.RunGate Mvs.RunPaths.\nOpen Scope N_scope.\n"
 LOAD_BASE, LOC_BASE, GATE_BASE, CMP_BASE, TWIN_BASE = 1000000, 2000000, 3000000, 4000000, 5000000
+PCLEAN_BASE, PWRITTEN_BASE, PATHS_END = 6000000, 7000000, 8000000
 OVL = "overlay/internal/mvs/"
 FILES = ["zz_verif_mvsgen_test.go", "zz_verif_c10_test.go", "zz_verif_c10_cache_test.go", "zz_verif_c11_test.go",
-         "zz_verif_c10_spell_test.go"]
+         "zz_verif_c10_spell_test.go", "zz_verif_c10_paths_test.go"]
 
 SEMVER = re.compile(r"^v(0|[1-9]\d*)\.(0|[1-9]\d*)\.(0|[1-9]\d*)(?:-([0-9A-Za-z.-]+))?$")
 
@@ -522,6 +523,112 @@ def spelling_model(ctx, allm, index, srecs):
              "disagreeing_cases": [{"v1": c["ta"], "v2": c["tb"], "implementation": c["c"]} for c in cm[:12]]}, found_input=False)
 
 
+def paths_family(ctx, precs):
+    """sixth family: requirement paths written in more than one way (harness/overlay/internal/mvs/
+    zz_verif_c10_paths_test.go).  Returns the model expressions (Mvs/RunPaths.v) and what their ids stand for."""
+    end = [r for r in precs if r["t"] == "END"]
+    cleans = [r for r in precs if r["t"] == "PCLEAN"]
+    pcs = [r for r in precs if r["t"] == "PC"]
+    punis = [r for r in precs if r["t"] == "PU"]
+    how = "VERIF_SEED=%d go test -overlay ... -run ^TestVerifC10Paths$ ./internal/mvs (harness/overlay/internal/mvs/" \
+          "zz_verif_c10_paths_test.go)" % ctx.seed
+    if not end or not cleans or not pcs or len(punis) != len(pcs):
+        ctx.violation("the written-paths family of the C10 harness did not run to its end",
+                      {"theorem_or_correspondence": "TestVerifC10Paths", "records": len(precs)}, found_input=False)
+        return [], {}
+    where = {}
+    for c in pcs:
+        k = (c["forced"] or {}).get("demanded_by", "no project with two tagged versions on one path")
+        where[k] = where.get(k, 0) + 1
+    states = sorted({k for c in pcs for k in c["res"]})
+    ctx.coverage["evaluations"] += end[0]["runs"] + 2 * len(cleans)
+    ctx.coverage["written_paths"] = {
+        "spellings_through_the_configuration_file": len(cleans), "derivations_of_a_listed_path": end[0]["derivations"],
+        "spellings_that_load_as_written": sum(1 for c in cleans if c["loads"] and c["loaded"] == c["s"]),
+        "examples": [[c["text"], c["loaded_text"]] for c in cleans if c["loaded"] != c["s"]][5:60:9],
+        "universes": len(pcs), "build_lists": end[0]["runs"], "cache_and_order_states": states,
+        "requirements_not_written_plainly": end[0]["requirements_not_written_plainly"],
+        "reference_ok": sum(1 for c in pcs if c["ref"]["st"] == "ok"),
+        "one_project_under_two_spellings": where,
+        "rule": "(A) paths in the form the repository lists them (with and without a major suffix, an '@' in an earlier "
+                "element) and 15 x 4 derivations of each by the inverse operations of the normalisation -- './', trailing "
+                "'/', '/.', '//', 'zz/../', 'sub/..', 'x/../', the redundant suffixes '@' '@v0' '@v1', the suffix after '/', "
+                "'/.' or '..' -- plus ~55 strings that are nobody's derivation (rooted, '..', several '@', majors v2..v100): "
+                "each as the path of a requirement through WriteConfigFile + LoadConfigFile and through CleanPath, both "
+                "compared with Mvs/Paths.v; a derivation must load as the path it was derived from.  (B) generated "
+                "universes in which two thirds of ALL requirements (the root's and every project's) are written in a "
+                "drawn derivation, and one project with two tagged versions on one path is demanded at both under two "
+                "different spellings (by the root / the root and a project / two projects); the root goes through "
+                "WriteConfigFile + LoadConfigFile; BuildList in the states listed: every answer must be the independent "
+                "reachability/max reference of the same universe written plainly; the universe as written and the cold "
+                "answer are evaluated by the model",
+    }
+    seen = set()
+    for f in [r for r in precs if r["t"] == "ORACLE"]:
+        if f["name"] in seen:
+            continue
+        seen.add(f["name"])
+        if f["name"] == "paths:buildlist-vs-reference":
+            fo = f["input"].get("one_project_under_two_spellings") or {}
+            ctx.violation("implementation violates C10 oracle %s (%s): BuildList = %s%s, expected %s%s" % (
+                f["name"], f["state"], json.dumps(f["got"])[:300], (" (%s)" % f["error_text"][:200]) if f.get("error_text") else "",
+                json.dumps(f["want"])[:300],
+                ("; %s is demanded at %s, written %s (%s)" % (fo["project"], " and ".join(fo["demanded_at"]),
+                                                             " and ".join(map(repr, fo["written_as"])), fo["demanded_by"])) if fo else ""),
+                {"oracle": f["name"], "state": f["state"], "input": f["input"], "got": f["got"], "want": f["want"],
+                 "error_text": f.get("error_text", ""), "all_answers": f["all_answers"], "how": how + ", case %d" % f["case"]})
+        else:
+            ctx.violation("implementation violates C10 oracle %s: %s" % (f["name"], f["what"][:600]),
+                          {"oracle": f["name"], "what": f["what"], "input": f["input"], "how": how})
+    exprs, index = [], {}
+    items = []
+    for i, c in enumerate(cleans):
+        for j, (k, via) in enumerate((("loaded", "WriteConfigFile + LoadConfigFile"), ("clean_path", "project.CleanPath"))):
+            if j == 0 and not c["loads"]:
+                continue
+            index[PCLEAN_BASE + 2 * i + j] = (c, k, via)
+            items.append("(%s, (%s, %s))" % (cq_N(PCLEAN_BASE + 2 * i + j), cq_bytes(bytes.fromhex(c["s"])), cq_bytes(bytes.fromhex(c[k]))))
+    exprs.append("mismatches_clean %s" % cq_list(items))
+    cur = []
+    for i, (u, c) in enumerate(zip(punis, pcs)):
+        index[PWRITTEN_BASE + i] = (u, c)
+        cur.append("(%s,\n  %s)" % (cq_universe(u), cq_list(["(%s, (%s, %s))" % (cq_N(PWRITTEN_BASE + i), cq_config(c["root"]),
+                                                                                 cq_bl_result(c["res"]["cold cache"]))])))
+        if len(cur) >= 100:
+            exprs.append("mismatches_c10_written [\n" + ";\n".join(cur) + "]")
+            cur = []
+    if cur:
+        exprs.append("mismatches_c10_written [\n" + ";\n".join(cur) + "]")
+    return exprs, index
+
+
+def paths_model(ctx, allm, index):
+    """model (Mvs/Paths.v) vs implementation on the written-paths family"""
+    if not index:
+        return
+    cm = [index[i] for i in allm if PCLEAN_BASE <= i < PWRITTEN_BASE]
+    wm = [index[i] for i in allm if PWRITTEN_BASE <= i < PATHS_END]
+    ctx.coverage["correspondence"]["written_path_cases"] = sum(1 for i in index if i < PWRITTEN_BASE)
+    ctx.coverage["correspondence"]["written_path_mismatches"] = len(cm)
+    ctx.coverage["correspondence"]["written_universes"] = sum(1 for i in index if i >= PWRITTEN_BASE)
+    ctx.coverage["correspondence"]["written_universe_mismatches"] = len(wm)
+    if cm and not ctx.violations:
+        ctx.violation("model/implementation disagree on the path a written requirement path is loaded as: %d of %d cases, e.g. %s" % (
+            len(cm), ctx.coverage["correspondence"]["written_path_cases"],
+            ", ".join("%r -> %r (%s)" % (c["text"], c[k + "_text"], via) for c, k, via in cm[:6])),
+            {"theorem_or_correspondence": "correspondence Mvs/Paths.v (clean_path_full; theorems written_path_loads_as, "
+                                          "written_build_list_spec rest on it) <-> internal/project/config.go LoadConfigBytes, version.go CleanPath",
+             "disagreeing_cases": [{"written": c["text"], "implementation": c[k + "_text"], "through": via} for c, k, via in cm[:12]]},
+            found_input=False)
+    if wm and not ctx.violations:
+        u, c = wm[0]
+        ctx.violation("model/implementation disagree on %d build lists of universes whose requirement paths are written in "
+                      "spellings, e.g. root %s" % (len(wm), c["root"]),
+                      {"theorem_or_correspondence": "correspondence Mvs/Paths.v (dawn_build_list_written) <-> LoadConfigBytes + BuildList",
+                       "disagreeing_cases": [{"universe_as_written": u, "root_as_written": c["root"], "implementation": c["res"]["cold cache"],
+                                              "one_project_under_two_spellings": c["forced"]} for u, c in wm[:2]]}, found_input=False)
+
+
 def fetch_family(ctx):
     """fourth family: the REAL git repository (internal/vcs/repo_git.go) delivering project versions one at a time on fresh
     dials, in turn on one dialed repository, and several at once on one dialed repository -- what the parallel build-list
@@ -601,7 +708,7 @@ def fetch_family(ctx):
 def run(ctx):
     ok, rep = ctx.coq_props("Mvs/Props_C10.v")
     proof_broken = not ok
-    okr, outr = ctx.coq_build(["Mvs/Run.vo"])
+    okr, outr = ctx.coq_build(["Mvs/Run.vo", "Mvs/RunLoad.vo", "Mvs/RunGate.vo", "Mvs/RunPaths.vo"])
     if not okr:
         ctx.violation("the model does not compile", {"theorem_or_correspondence": "Mvs/Run.vo", "log": outr[-2000:]},
                       found_input=False)
@@ -615,7 +722,8 @@ def run(ctx):
            "VERIF_MALFORMED_MAJOR": os.environ.get("VERIF_MALFORMED_MAJOR", "0"),
            "VERIF_OUT_CACHE": outc, "VERIF_NUNIV_CACHE": str(ncache), "VERIF_NROOTS_CACHE": "2",
            "VERIF_CACHE_TARGETS": "3",
-           "VERIF_OUT_SPELL": os.path.join(ctx.tmp, "c10spell.jsonl"), "VERIF_NUNIV_SPELL": str(30 if ctx.quick() else 300)}
+           "VERIF_OUT_SPELL": os.path.join(ctx.tmp, "c10spell.jsonl"), "VERIF_NUNIV_SPELL": str(30 if ctx.quick() else 300),
+           "VERIF_OUT_PATHS": os.path.join(ctx.tmp, "c10paths.jsonl"), "VERIF_NUNIV_PATHS": str(60 if ctx.quick() else 600)}
     # the cache-state family creates and removes ~10^5 small files: keep the temporary directory (the resolver's
     # staging areas and the cache directories alike, so renames stay on one file system) in memory when possible
     shm = None
@@ -631,7 +739,7 @@ def run(ctx):
     outl = os.path.join(ctx.tmp, "c10load.jsonl")
     rcl, ol = None, ""
     try:
-        rc, o = ctx.go_overlay_test("internal/mvs", harness_files(), "^TestVerifC10(Cache|Spell)?$", env, timeout=1500)
+        rc, o = ctx.go_overlay_test("internal/mvs", harness_files(), "^TestVerifC10(Cache|Spell|Paths)?$", env, timeout=1500)
         if rc == 0:
             envl = {"VERIF_C10_EXPORT": export, "VERIF_OUT_LOAD": outl, "VERIF_SEED": str(ctx.seed),
                     "VERIF_C10_LOAD_ENTRIES": "3" if ctx.quick() else "6",
@@ -649,6 +757,7 @@ def run(ctx):
     crecs = read_jsonl(outc)
     lrecs = read_jsonl(outl)
     srecs = read_jsonl(env["VERIF_OUT_SPELL"])
+    precs = read_jsonl(env["VERIF_OUT_PATHS"])
     if rc != 0:
         ctx.log(o[-3000:])
         cc = crashed_case(recs)
@@ -694,6 +803,7 @@ def run(ctx):
     cache_family(ctx, crecs)
     load_family(ctx, lrecs, crecs, rcl, ol)
     sexprs, sindex = spelling_family(ctx, srecs)
+    pexprs, pindex = paths_family(ctx, precs)
     fetch_family(ctx)
     ctx.add_samples([{"root": c["root"], "build_list": c["res"]["cold"]} for c in cases[:3]])
 
@@ -725,7 +835,7 @@ def run(ctx):
         exprs.append("mismatches_c10 [\n" + ";\n".join(cur) + "]")
     lexprs, lindex = load_model_exprs(lrecs, crecs) if any(r["t"] == "END" for r in lrecs) else ([], [])
     kexprs, kindex = locate_model_exprs(crecs)
-    okc, res, logs = ctx.coq_eval(HDR, exprs + lexprs + kexprs + sexprs)
+    okc, res, logs = ctx.coq_eval(HDR, exprs + lexprs + kexprs + sexprs + pexprs)
     if not okc:
         ctx.log("coq evaluation failed", logs[:1])
         ctx.violation("model evaluation failed", {"theorem_or_correspondence": "C10 cases.v evaluation", "log": logs[:2]},
@@ -733,6 +843,7 @@ def run(ctx):
         return
     allm = [i for r in res for i in r]
     mism = [i for i in allm if i < LOAD_BASE]
+    sallm, allm = allm, [i for i in allm if i < PCLEAN_BASE]
     lmism = [lindex[i - LOAD_BASE] for i in allm if LOAD_BASE <= i < LOC_BASE]
     kmism = [kindex[i - LOC_BASE] for i in allm if LOC_BASE <= i < GATE_BASE]
     ctx.coverage["correspondence"]["cases"] = len(cases)
@@ -751,6 +862,7 @@ def run(ctx):
     ctx.log("cases=%d mismatches=%d oracle_failures=%d; project-load cases=%d mismatches=%d; repository lookups=%d mismatches=%d" % (
         len(cases), len(mism), len(oracles), len(lindex), len(lmism), len(kindex), len(kmism)))
     spelling_model(ctx, allm, sindex, srecs)
+    paths_model(ctx, sallm, pindex)
     if lmism and not ctx.violations:
         ctx.violation("model/implementation disagree on %d project loads, e.g. exported case %d%s" % (
             len(lmism), lmism[0]["case"], (" with cache entry %s damaged (%s)" % (lmism[0]["entry"], lmism[0]["kind"]))
